@@ -101,7 +101,11 @@ impl HeaderSession {
     }
 
     pub(crate) async fn send_request(&mut self, height: u64, amount: u64) {
-        debug!("Fetching batch {} until {}", height, height + amount - 1);
+        debug!(
+            "Fetching batch {} until {}",
+            height,
+            height.saturating_add(amount.saturating_sub(1))
+        );
 
         let p2p_cmd_rx = self.cmd_tx.clone();
         let request = HeaderRequest::with_origin(height, amount);
